@@ -350,3 +350,48 @@ func TestF18_PrecWrap(t *testing.T) {
 		t.Errorf("SetPrec(MaxPrec).SetFloat(0.5).Prec() = %d", z.Prec())
 	}
 }
+
+// F19: a finite product plus an infinity is that infinity, also when the product's exponent leaves the range
+func TestF19_FMAInfiniteAddend(t *testing.T) {
+	x := new(decimal.Decimal).SetPrec(1).SetMantExp(decimal.NewDecimal(1, 0), 2000000000)
+	z := new(decimal.Decimal).FMA(x, x, new(decimal.Decimal).SetInf(true))
+	if !z.IsInf() || !z.Signbit() {
+		t.Errorf("FMA(1e2000000000, 1e2000000000, -Inf) = %v", z)
+	}
+	u := new(decimal.Decimal).SetInf(false)
+	u.SetPrec(5)
+	u.FMA(new(decimal.Decimal).Neg(x), x, u)
+	if !u.IsInf() || u.Signbit() || u.Prec() != 5 {
+		t.Errorf("u.FMA(-x, x, u=+Inf) = %v prec %d", u, u.Prec())
+	}
+}
+
+// F20: Sqrt is correctly rounded in every mode, perfect squares are exact, Acc() is truthful
+func TestF20_SqrtCorrectlyRounded(t *testing.T) {
+	nine := decimal.NewDecimal(9, 0)
+	for _, m := range []decimal.RoundingMode{decimal.ToNearestEven, decimal.ToNearestAway, decimal.ToZero, decimal.AwayFromZero, decimal.ToNegativeInf, decimal.ToPositiveInf} {
+		for _, p := range []uint{1, 4, 34} {
+			z := new(decimal.Decimal).SetPrec(p).SetMode(m).Sqrt(nine)
+			if z.Cmp(decimal.NewDecimal(3, 0)) != 0 || z.Acc() != decimal.Exact || z.Mode() != m || z.Prec() != p {
+				t.Errorf("Sqrt(9) prec %d mode %v = %v (%v)", p, m, z, z.Acc())
+			}
+		}
+	}
+	x, _, _ := new(decimal.Decimal).SetPrec(40).Parse("7732889109322906291800648911131e-1", 10)
+	z := new(decimal.Decimal).SetPrec(30).Sqrt(x)
+	lo := new(decimal.Decimal).SetPrec(70).Mul(z, z)
+	if lo.Cmp(x) >= 0 != (z.Acc() == decimal.Above) {
+		t.Errorf("Acc %v does not match the sign of z*z - x", z.Acc())
+	}
+	// z is the nearest 30-digit value: (z-ulp/2)^2 < x < (z+ulp/2)^2
+	h := new(decimal.Decimal).SetMantExp(decimal.NewDecimal(5, 0), z.MantExp(nil)-31)
+	a := new(decimal.Decimal).SetPrec(40).Sub(z, h)
+	b := new(decimal.Decimal).SetPrec(40).Add(z, h)
+	if new(decimal.Decimal).SetPrec(90).Mul(a, a).Cmp(x) >= 0 || new(decimal.Decimal).SetPrec(90).Mul(b, b).Cmp(x) <= 0 {
+		t.Errorf("Sqrt(%v) at 30 digits = %v is not the nearest value", x, z)
+	}
+	two := new(decimal.Decimal).SetPrec(5).SetMode(decimal.ToPositiveInf).Sqrt(decimal.NewDecimal(2, 0))
+	if two.Text('g', -1) != "1.4143" || two.Acc() != decimal.Above {
+		t.Errorf("Sqrt(2) prec 5 ToPositiveInf = %v (%v)", two, two.Acc())
+	}
+}
